@@ -61,7 +61,7 @@ PARSE_TB = ["nom 7.1.3 combinators (tag, alpha1, digit1, fold_many0, verify, alt
             "T4/T5 translators translate/context.py, translate/shape.py (narrow regex facts; a fact not found becomes '?' and shape_ok fails)",
             "HashMap<String, ContextElement> modelled as an association list with overwrite-on-insert"]
 
-TRI_TB = ["Rc<RefCell<..>> aliasing modelled by an explicit heap with ids (Cav/Model/Sweep.lean); BTreeSet<YEdge> with its state-dependent comparator modelled as a list scanned with the same comparator (exact for <= 11 active edges or a consistent order); BTreeMap of events as a sorted association list; HashSet<Pt> as a list",
+TRI_TB = ["Rc<RefCell<..>> aliasing modelled by an explicit heap with ids (Cav/Model/Sweep.lean); BTreeSet<YEdge> with its state-dependent comparator modelled as a list scanned with the same comparator; a ghost flag of the model records at every ordered lookup whether the comparison results are monotone along the stored order, Cav.C04Order.search_tree_independent proves that while the flag holds every comparison-based search structure over the stored sequence returns the position of the list scan, and the harness reports a valid input on which the flag drops (what remains trusted: std's B-tree descends by comparisons with stored keys only); BTreeMap of events as a sorted association list; HashSet<Pt> as a list",
           "exact integer oracle harness/src/geo.rs (validity, proper crossing, tiling) written independently of the crate"]
 TRI_AS = ["oracle inputs are integer lattice points (exact i128 predicates); the model is additionally compared on non-finite/signed-zero/1e300 inputs"]
 
